@@ -20,6 +20,7 @@ TEXT = ("N1 (provenance): in the pack writer and in commit the storage key deriv
         "Configuration sub-check: serde_json is resolved without preserve_order / arbitrary_precision so object keys "
         "serialise sorted. Does not decide parse-print idempotence of serde_json over all metadata values, nor monotone "
         "growth over a history.")
+TECHNIQUE = 'static analysis over rustc MIR: content-addressing provenance (key = hash of written bytes), effect classification of backend writes under an absence test, absence of destructive effects, print/parse normal-form agreement for blocks'
 TRUSTED = ["rustc nightly MIR", "sha2/hex", "serde_json::to_string is deterministic for a given Value", "cargo metadata reports the resolved feature set"]
 
 DESTRUCTIVE_FS = {"remove_file", "remove_dir", "remove_dir_all", "rename", "set_len", "truncate", "append", "write", "copy"}
